@@ -8,22 +8,73 @@ from __future__ import annotations
 from dsim.prng import Rng
 
 
+_MEMBER: tuple[int, int] | None = None   # (member index, per-batch offset): stratify variants instead of sampling them
+
+
+def _variant(rng: Rng, weighted: list) -> str:
+    """Variant of a family member. Inside a batch the members of a family walk through the variants without
+    replacement (so that a handful of members already covers the rule's special paths); otherwise weighted sampling."""
+    if _MEMBER is None:
+        return rng.weighted(weighted)
+    names = [n for n, _ in weighted]
+    member, offset = _MEMBER
+    return names[(member + offset) % len(names)]
+
+
 def _floats(rng: Rng, n: int) -> str:
     return ", ".join(str((rng.below(19) - 9) / 4.0) for _ in range(n))
 
 
 def fam_pad_conv(rng: Rng) -> str:
+    """Pad -> Conv / ConvInteger with every path of the rule's check(): optional constant_value / axes inputs, pad modes,
+    non-constant pads, pads in non-spatial dims, negative pads, auto_pad on the Conv, unknown input shape."""
     p = rng.choice([1, 2, 3])
     q = rng.choice([0, 1, 2])
     k = rng.choice([1, 3])
+    v = _variant(rng, [("plain", 5), ("mode_reflect", 1), ("cv_zero", 2), ("cv_one", 1), ("axes", 2), ("axes_neg", 1),
+                      ("pads_input", 1), ("nonspatial", 1), ("negative", 1), ("auto_pad", 2), ("unknown_shape", 1), ("conv_integer", 2)])
     extra = rng.choice(["", ", pads = [1, 1, 1, 1]", ", strides = [2, 2]"])
-    mode = rng.choice(["", ', mode = "constant"'])
-    return f"""<ir_version: 10, opset_import: ["" : 20]>
-agraph (float[1,2,8,8] x) => (float[1,2,?,?] y)
-<float[2,2,{k},{k}] W = {{{_floats(rng, 4 * k * k)}}}, int64[8] pads = {{0, 0, {p}, {q}, 0, 0, {p}, {q}}}>
+    xdecl = "float[1,2,8,8] x" if v != "unknown_shape" else "float[N,C,H,W] x"
+    inits = [f"float[2,2,{k},{k}] W = {{{_floats(rng, 4 * k * k)}}}"]
+    inputs = [xdecl]
+    pad_args = "x, pads"
+    pad_attr = ' <mode = "constant">' if rng.chance(0.5) else ""
+    pads8 = f"0, 0, {p}, {q}, 0, 0, {p}, {q}"
+    if v == "mode_reflect":
+        pad_attr = f' <mode = "{rng.choice(["reflect", "edge"])}">'
+    if v == "nonspatial":
+        pads8 = f"0, 1, {p}, {q}, 0, 0, {p}, {q}"
+    if v == "negative":
+        pads8 = f"0, 0, -1, {q}, 0, 0, {p}, {q}"
+    if v == "pads_input":
+        inputs.append("int64[8] pads")
+    elif v in ("axes", "axes_neg"):
+        inits.append(f"int64[4] pads = {{{p}, {q}, {p}, {q}}}")
+        inits.append("float cv = {0.0}")
+        inits.append(f"int64[2] axes = {{{'2, 3' if v == 'axes' else '-2, -1'}}}")
+        pad_args = "x, pads, cv, axes"
+    else:
+        inits.append(f"int64[8] pads = {{{pads8}}}")
+    if v in ("cv_zero", "cv_one"):
+        inits.append(f"float cv = {{{'0.0' if v == 'cv_zero' else '1.0'}}}")
+        pad_args = "x, pads, cv"
+    conv_attr = f"kernel_shape = [{k}, {k}]{extra}"
+    if v == "auto_pad":
+        conv_attr = f'kernel_shape = [{k}, {k}], auto_pad = "{rng.choice(["SAME_UPPER", "SAME_LOWER", "VALID"])}"'
+    if v == "conv_integer":
+        return f"""<ir_version: 10, opset_import: ["" : 20]>
+agraph (uint8[1,2,8,8] x) => (int32[1,2,?,?] y)
+<uint8[2,2,{k},{k}] W = {{{", ".join(str(rng.below(5)) for _ in range(4 * k * k))}}}, int64[8] pads = {{{pads8}}}>
 {{
-   padded = Pad <mode = "constant"> (x, pads)
-   y = Conv <kernel_shape = [{k}, {k}]{extra}> (padded, W)
+   padded = Pad(x, pads)
+   y = ConvInteger <kernel_shape = [{k}, {k}]> (padded, W)
+}}"""
+    return f"""<ir_version: 10, opset_import: ["" : 20]>
+agraph ({", ".join(inputs)}) => (float[1,2,?,?] y)
+<{", ".join(inits)}>
+{{
+   padded = Pad{pad_attr} ({pad_args})
+   y = Conv <{conv_attr}> (padded, W)
 }}"""
 
 
@@ -42,22 +93,46 @@ agraph (float[1,2,8,8] x) => (float[1,2,?,?] y)
 
 
 def fam_reshape_reshape(rng: Rng) -> str:
-    a = rng.choice([[2, 12], [4, 6], [3, 8], [24]])
-    b = rng.choice([[6, 4], [8, 3], [2, 3, 4], [1, 24], [24, 1], [-1, 2]])
-    az = rng.choice(["", "<allowzero = 0>", "<allowzero = 1>"]) if 0 not in b else ""
+    """Reshape o Reshape with every path of ReshapeReshape.check(): plain shapes, -1, a 0 that copies a dim, allowzero=1
+    with explicit zeros (empty tensors), 0 together with -1 (refused), two zeros (refused), non-constant shape."""
+    v = _variant(rng, [("plain", 5), ("minus_one", 2), ("zero_copy", 2), ("allowzero_empty", 3), ("zero_and_minus", 1),
+                      ("two_zeros", 1), ("shape_input", 1), ("identity", 1)])
+    xshape, a = [2, 3, 4], rng.choice([[2, 12], [4, 6], [3, 8], [24]])
+    az = rng.choice(["", "<allowzero = 0>"])
+    if v == "plain":
+        b = rng.choice([[6, 4], [8, 3], [2, 3, 4], [1, 24], [24, 1]])
+        az = rng.choice(["", "<allowzero = 0>", "<allowzero = 1>"])
+    elif v == "minus_one":
+        b = rng.choice([[-1, 2], [4, -1], [2, -1, 3]])
+    elif v == "zero_copy":
+        a, b = [2, 12], rng.choice([[0, 12], [0, 3, 4]])
+    elif v == "allowzero_empty":
+        xshape, a, b, az = [3, 0, 8], rng.choice([[4, 2, 0, 0], [0, 24], [6, 0, 4]]), rng.choice([[3, 0], [0, 5], [2, 0, 7]]), "<allowzero = 1>"
+    elif v == "zero_and_minus":
+        a, b = [2, 12], [0, -1]
+    elif v == "two_zeros":
+        a, b = [2, 3, 4], [0, 0, 4]
+    elif v == "identity":
+        a, b = [6, 4], [2, 3, 4]
+    else:
+        b = [6, 4]
+    a_attr = "<allowzero = 1>" if v == "allowzero_empty" else ""
+    shape2 = "" if v == "shape_input" else f", int64[{len(b)}] shape2 = {{{', '.join(map(str, b))}}}"
+    extra_in = ", int64[2] shape2" if v == "shape_input" else ""
     return f"""<ir_version: 10, opset_import: ["" : 20]>
-agraph (float[2,3,4] x) => (float[?] y)
-<int64[{len(a)}] shape1 = {{{", ".join(map(str, a))}}}, int64[{len(b)}] shape2 = {{{", ".join(map(str, b))}}}>
+agraph (float[{",".join(map(str, xshape))}] x{extra_in}) => (float[?] y)
+<int64[{len(a)}] shape1 = {{{", ".join(map(str, a))}}}{shape2}>
 {{
-   t = Reshape(x, shape1)
+   t = Reshape {a_attr} (x, shape1)
    y = Reshape {az} (t, shape2)
 }}"""
 
 
 def fam_flatten(rng: Rng) -> str:
     axis = rng.choice([0, 1, 2, 3, -1, -2])
+    xdecl = rng.choice(["float[2,3,4] x", "float[2,3,4] x", "float[N,3,4] x", "float[N,M,K] x", "float[2,3] x"])
     return f"""<ir_version: 10, opset_import: ["" : 20]>
-agraph (float[2,3,4] x) => (float[?,?] y)
+agraph ({xdecl}) => (float[?,?] y)
 {{
    t = Relu(x)
    y = Flatten <axis = {axis}> (t)
@@ -67,23 +142,27 @@ agraph (float[2,3,4] x) => (float[?,?] y)
 def fam_cast_cast(rng: Rng) -> str:
     t1 = rng.choice([1, 10, 11, 16])
     t2 = rng.choice([1, 10, 11, 6, 7])
+    t3 = rng.choice([1, 1, t2])   # a Cast to the type its input already has is an identity (CastIdentity)
     return f"""<ir_version: 10, opset_import: ["" : 20]>
 agraph (float[4] x) => (float[4] y)
 {{
-   t = Cast <to = {t1}> (x)
+   s = Cast <to = 1> (x)
+   t = Cast <to = {t1}> (s)
    u = Cast <to = {t2}> (t)
-   y = Cast <to = 1> (u)
+   w = Cast <to = {t3}> (u)
+   y = Cast <to = 1> (w)
 }}"""
 
 
 def fam_transpose(rng: Rng) -> str:
     perms = [[0, 1, 2], [1, 0, 2], [2, 1, 0], [0, 2, 1], [1, 2, 0], [2, 0, 1]]
     p1, p2 = rng.choice(perms), rng.choice(perms)
+    second = f"Transpose <perm = {p2}> (t)" if rng.chance(0.8) else "Transpose (t)"
     return f"""<ir_version: 10, opset_import: ["" : 20]>
 agraph (float[2,3,4] x) => (float[?,?,?] y)
 {{
    t = Transpose <perm = {p1}> (x)
-   y = Transpose <perm = {p2}> (t)
+   y = {second}
 }}"""
 
 
@@ -117,10 +196,13 @@ agraph (float[4] x) => (float[4] y)
 
 
 def fam_unsqueeze(rng: Rng) -> str:
-    a1, a2 = rng.choice([0, 1, 2]), rng.choice([0, 1, 2, 3])
+    a1, a2 = rng.choice([0, 1, 2, -1]), rng.choice([0, 1, 2, 3, -1])
+    nonconst = rng.chance(0.15)
+    ax2 = "" if nonconst else f", int64[1] ax2 = {{{a2}}}"
+    extra_in = ", int64[1] ax2" if nonconst else ""
     return f"""<ir_version: 10, opset_import: ["" : 20]>
-agraph (float[3,4] x) => (float[?,?,?,?] y)
-<int64[1] ax1 = {{{a1}}}, int64[1] ax2 = {{{a2}}}>
+agraph (float[3,4] x{extra_in}) => (float[?,?,?,?] y)
+<int64[1] ax1 = {{{a1}}}{ax2}>
 {{
    t = Unsqueeze(x, ax1)
    y = Unsqueeze(t, ax2)
@@ -217,17 +299,52 @@ agraph (float[{d},6] x) => (float[?,?] y)
 
 
 def fam_fold_chain(rng: Rng) -> str:
-    """Constant-foldable prefix followed by a data-dependent suffix (exercises FoldConstantsPass state)."""
+    """Constant-foldable prefix followed by a data-dependent suffix (exercises FoldConstantsPass state and the reference
+    evaluator), including members whose all-constant node cannot be evaluated (the evaluation raises and folding is
+    skipped) next to members where the same op with the same dtypes folds fine."""
     a, b = rng.choice([1.0, 2.0, -3.0]), rng.choice([0.5, 4.0])
-    foldable = rng.chance(0.75)
-    first = "c = Add(k1, k2)" if foldable else "c = Add(x, k2)"
-    return f"""<ir_version: 10, opset_import: ["" : 20]>
-agraph (float[2] x) => (float[2] y)
-<float[2] k1 = {{{a}, {b}}}, float[2] k2 = {{{b}, {a}}}>
+    # each "cannot be evaluated" variant sits next to its "folds fine" twin (same op, same dtypes, same opset version)
+    v = _variant(rng, [("float_ok", 4), ("float_bad_broadcast", 2), ("int_pow_ok", 2), ("int_pow_negative", 2), ("reshape_ok", 1),
+                       ("reshape_bad", 1), ("int_div_ok", 1), ("int_div_zero", 1), ("float_not_foldable", 2)])
+    ver = 20
+    if v.startswith("float"):
+        k2 = f"float[3] k2 = {{{b}, {a}, 1.0}}" if v == "float_bad_broadcast" else f"float[2] k2 = {{{b}, {a}}}"
+        first = "c = Add(x, k2)" if v == "float_not_foldable" else "c = Add(k1, k2)"
+        return f"""<ir_version: 10, opset_import: ["" : {ver}]>
+agraph (float[2] x) => (float[?] y)
+<float[2] k1 = {{{a}, {b}}}, {k2}>
 {{
    {first}
    d = Mul(c, k1)
    y = Add(x, d)
+}}"""
+    if v.startswith("int_pow"):
+        e = "-1, 2" if v == "int_pow_negative" else "3, 2"
+        return f"""<ir_version: 10, opset_import: ["" : {ver}]>
+agraph (int64[2] x) => (int64[2] y)
+<int64[2] base = {{2, {rng.choice([3, 5])}}}, int64[2] exp = {{{e}}}>
+{{
+   p = Pow(base, exp)
+   y = Add(x, p)
+}}"""
+    if v.startswith("int_div"):
+        d = "0, 2" if v == "int_div_zero" else "4, 2"
+        return f"""<ir_version: 10, opset_import: ["" : {ver}]>
+agraph (int64[2] x) => (int64[2] y)
+<int64[2] num = {{8, {rng.choice([6, 10])}}}, int64[2] den = {{{d}}}>
+{{
+   q = Div(num, den)
+   r = Mod(num, den)
+   s = Add(q, r)
+   y = Add(x, s)
+}}"""
+    shp = "4, 2" if v == "reshape_bad" else "3, 2"
+    return f"""<ir_version: 10, opset_import: ["" : {ver}]>
+agraph (float[3,2] x) => (float[?,?] y)
+<float[6] k = {{{_floats(rng, 6)}}}, int64[2] shp = {{{shp}}}>
+{{
+   r = Reshape(k, shp)
+   y = Add(x, r)
 }}"""
 
 
@@ -304,16 +421,31 @@ agraph (float[2,{n}] x, float[{n}] bias) => (float[2,{n}] y)
 
 
 def fam_slice_split(rng: Rng) -> str:
-    """Two Slices of the halves of the last axis (SlicesSplit: the only shipped rule whose pattern has two output nodes)."""
+    """Two Slices of the halves of the last axis (SlicesSplit: the only shipped rule whose pattern has two output nodes),
+    plus members each of which trips one condition of its check()."""
     k = rng.choice([2, 3, 4])
+    v = _variant(rng, [("ok", 6), ("axes_differ", 1), ("begin_nonzero", 1), ("gap", 1), ("short_end", 1), ("first_axis", 1), ("unknown_dim", 1)])
     order = rng.chance(0.5)
     mid = rng.choice(["", "r = Relu(x)\n   "])
+    b0, e0, b1, e1, ax0, ax1 = 0, k, k, 2 * k, rng.choice([-1, 1]), None
+    if v == "axes_differ":
+        ax0, ax1 = 1, 0
+    if v == "begin_nonzero":
+        b0 = 1
+    if v == "gap":
+        b1 = k + 1
+    if v == "short_end":
+        e1 = 2 * k - 1
+    if v == "first_axis":
+        ax0 = 0
+    ax1 = ax0 if ax1 is None else ax1
     s0 = "a = Slice(x, b0, e0, ax)"
-    s1 = "b = Slice(x, b1, e1, ax)"
+    s1 = "b = Slice(x, b1, e1, axb)"
     first, second = (s0, s1) if order else (s1, s0)
+    xdecl = f"float[2,{2 * k}] x" if v != "unknown_dim" else "float[2,N] x"
     return f"""<ir_version: 10, opset_import: ["" : 20]>
-agraph (float[2,{2 * k}] x) => (float[2,{k}] y)
-<int64[1] b0 = {{0}}, int64[1] e0 = {{{k}}}, int64[1] b1 = {{{k}}}, int64[1] e1 = {{{2 * k}}}, int64[1] ax = {{{rng.choice([-1, 1])}}}>
+agraph ({xdecl}) => (float[?,?] y)
+<int64[1] b0 = {{{b0}}}, int64[1] e0 = {{{e0}}}, int64[1] b1 = {{{b1}}}, int64[1] e1 = {{{e1}}}, int64[1] ax = {{{ax0}}}, int64[1] axb = {{{ax1}}}>
 {{
    {mid}{first}
    {second}
@@ -331,7 +463,13 @@ FAMILIES = {
 }
 
 
-def gen_model(rng: Rng, family: str | None = None) -> tuple[str, str]:
+def gen_model(rng: Rng, family: str | None = None, member: int | None = None, offset: int = 0) -> tuple[str, str]:
+    global _MEMBER
     fam = family or rng.choice(sorted(FAMILIES))
+    _MEMBER = None if member is None else (member, offset)
+    try:
+        text = FAMILIES[fam](rng)
+    finally:
+        _MEMBER = None
     # pad_conv_tail is the same rule's family as pad_conv (a later rule fails in the same traversal)
-    return "gen:" + {"pad_conv_tail": "pad_conv"}.get(fam, fam), FAMILIES[fam](rng)
+    return "gen:" + {"pad_conv_tail": "pad_conv"}.get(fam, fam), text
